@@ -212,6 +212,17 @@ func bvBin(op string, a, b *Term) *Term {
 			}
 		}
 	}
+	// unsigned division / remainder by a power of two: shift / mask (no division circuit)
+	if (op == "bvurem" || op == "bvudiv") && b.isConst && b.v != 0 && b.v&(b.v-1) == 0 {
+		k := 0
+		for (uint64(1) << uint(k)) != b.v {
+			k++
+		}
+		if op == "bvurem" {
+			return bvBin("bvand", a, bvConst(b.v-1, w))
+		}
+		return bvBin("bvlshr", a, bvConst(uint64(k), w))
+	}
 	// canonicalise x - c  ==>  x + (-c), and fold (x + c1) + c2
 	if op == "bvsub" && b.isConst {
 		return bvBin("bvadd", a, bvConst(-b.v, w))
